@@ -87,6 +87,8 @@ def tasks(tier):
         out[f"syn:{sig}"] = (run_sig, {"sig": sig, "kind": "synthetic", "batches": batches})
     for name in E.QUICK:
         cfg = E.QUICK[name][0]
+        if tier == "quick" and name in ("PacMan", "MMST", "Sudoku", "Tetris", "Sokoban"):
+            continue   # large signatures: thorough tier only (cost; the proof is signature-generic)
         out[f"sig:{name}@{cfg}"] = (run_sig, {"sig": f"{name}@{cfg}", "kind": "real", "batches": (2,) if tier == "quick" else (1, 2, 3)})
     return out
 
